@@ -1,0 +1,27 @@
+""" Verification hooks (tracing / scheduling points).
+
+Inactive unless the environment variable PYTORCH_WAVELETS_VERIF=1 is set when
+the package is imported; then :func:`point` forwards the event name and its
+fields to a sink installed with :func:`set_sink` (no sink: nothing happens).
+With the variable unset, :func:`point` is a constant-time no-op.
+"""
+import os
+
+ENABLED = os.environ.get('PYTORCH_WAVELETS_VERIF') == '1'
+_sink = None
+
+
+def set_sink(fn):
+    """ Install (or with None remove) the function receiving (name, fields) """
+    global _sink
+    _sink = fn
+
+
+if ENABLED:
+    def point(event, **fields):
+        s = _sink
+        if s is not None:
+            s(event, fields)
+else:
+    def point(event, **fields):
+        pass
